@@ -24,7 +24,9 @@ EXPLANATION = (
     "form_request path is accepted by the request tree rebuilt from all add_request sites, for every concrete "
     "component class it can address, ending at a handler with enough parameters; R5.5 every dynamic registration of a "
     "removable component has a matching remove_request; R5.6 every path that inserts a component into its owner's "
-    "collection also registers its route (frozen insertion/registration pairs). NOT decided: that a handler which is reached changes only what "
+    "collection also registers its route (frozen insertion/registration pairs); R5.7 = C01's R1.5 (every handler returns a "
+    "RequestResponse, every from_bool(e) receives a bool on every path of every target - otherwise the answer is None, not one of "
+    "the four statuses) and R5.8 = C11's R11.4 (each permission rule computes its documented predicate) applied here. NOT decided: that a handler which is reached changes only what "
     "it should, and status 'success' meaning the operation really succeeded (behavioural)."
 )
 TECHNIQUE = "static: CFG must-pass on the dispatcher, request-tree reconstruction from all add_request sites vs evaluated form_request path templates, purity closure of validators"
@@ -409,3 +411,10 @@ def check(ctx: Ctx) -> None:
     r5_4(ctx, tree, routes)
     r5_5(ctx, tree)
     r5_6(ctx, tree)
+    # "one of the four documented statuses" needs every handler to return a response built from a bool on every path (C01 R1.5),
+    # and "refused by a permission rule" means what it says only if each rule computes its documented predicate (C11 R11.4)
+    from . import c01, c11
+    with ctx.borrowed({"R1.5": "R5.7"}):
+        c01.r1_5(ctx)
+    with ctx.borrowed({"R11.4": "R5.8"}):
+        c11.r11_4(ctx)
